@@ -248,6 +248,13 @@ func Run(r *ev.Run) {
 			}
 			out, err := cmd.CombinedOutput()
 			r.Set("env "+env, strings.TrimSpace(lastLine(string(out))))
+			if os.Getenv("VERIF_EMIT_CASES") == "1" {
+				for _, l := range strings.Split(string(out), "\n") {
+					if strings.HasPrefix(l, "CASE ") {
+						fmt.Println(l)
+					}
+				}
+			}
 			if err != nil {
 				for _, l := range strings.Split(string(out), "\n") {
 					if strings.HasPrefix(l, "  case: ") {
